@@ -70,7 +70,7 @@ Lemma cond_mem_In : forall c l, cond_mem c l = true -> In c l.
 Proof.
   unfold cond_mem; intros c l H. apply existsb_exists in H as [x [Hx He]].
   unfold cond_eqb in He. apply andb_true_iff in He as [H1 H2].
-  apply String.eqb_eq in H1. apply Bool.eqb_prop in H2.
+  apply N.eqb_eq in H1. apply Bool.eqb_prop in H2.
   destruct c, x; cbn in *; subst; assumption.
 Qed.
 
@@ -271,7 +271,7 @@ Proof.
 Qed.
 
 (* ------------------------------------------------------------------ dry-run at command level *)
-Lemma dry_site_silent : forall v s, v "dry_run" = true -> cond_mem dry_cond (s_conds s) = true ->
+Lemma dry_site_silent : forall v s, v F_dry_run = true -> cond_mem dry_cond (s_conds s) = true ->
   conds_hold v s = false.
 Proof.
   intros v s Hv Hm. apply cond_mem_In in Hm. unfold conds_hold.
@@ -279,7 +279,7 @@ Proof.
   unfold holds, dry_cond in H. cbn in H. rewrite Hv in H. discriminate.
 Qed.
 
-Lemma sites_run_dry : forall ao v ss pl, v "dry_run" = true ->
+Lemma sites_run_dry : forall ao v ss pl, v F_dry_run = true ->
   forallb (fun s => cond_mem dry_cond (s_conds s)) ss = true ->
   sites_run ao v ss pl = (Done, []).
 Proof.
@@ -288,7 +288,7 @@ Proof.
   unfold site_run. rewrite (dry_site_silent v s Hv H1). cbv beta iota. rewrite (IH (tl pl) Hv H2). reflexivity.
 Qed.
 
-Lemma run_entry_dry : forall f ao v pl, dry_complete f = true -> v "dry_run" = true ->
+Lemma run_entry_dry : forall f ao v pl, dry_complete f = true -> v F_dry_run = true ->
   snd (run_entry f ao v pl) = [].
 Proof.
   intros f ao v pl Hd Hv. unfold dry_complete in Hd. rewrite forallb_app in Hd.
@@ -302,6 +302,77 @@ Lemma all_dry_complete : forall e, has_dry e = true -> dry_complete (entry_facts
 Proof. destruct e; intros H; try discriminate; vm_compute; reflexivity. Qed.
 
 Lemma dry_run_commands_no_effect_lemma : forall e ao v pl,
-  has_dry e = true -> v "dry_run" = true ->
+  has_dry e = true -> v F_dry_run = true ->
   snd (run_entry (entry_facts e) ao v pl) = [].
 Proof. intros; apply run_entry_dry; [apply all_dry_complete|]; assumption. Qed.
+
+(* ------------------------------------------------------------------ examples (non-vacuity) *)
+Definition ex_hash (d : N) : id := (1000 + d)%N.
+
+(* without dry_run the same calls do reach the inner backend and the storage *)
+Example ex_wrapper_live :
+  flat_map (dr_call ex_hash ex_hash false) [CSaveFile true Snapshot 1; CDeleteList Pack [1; 2]; CWriteBytes Index 7]%N
+  = [IHashWrite Snapshot 1; IRemove Pack 1; IRemove Pack 2; IWrite Index 7]%N /\
+  flat_map (lower ex_hash) (flat_map (dr_call ex_hash ex_hash false) [CSaveFile true Snapshot 1; CDeleteList Pack [1; 2]]%N)
+  = [RawWrite Snapshot 1001; RawRemove Pack 1; RawRemove Pack 2]%N /\
+  flat_map (dr_call ex_hash ex_hash true) [CSaveFile true Snapshot 1; CDeleteList Pack [1; 2]; CWriteBytes Index 7; CReadFull Index 7]%N
+  = [IReadFull Index 7]%N.
+Proof. repeat split; reflexivity. Qed.
+
+Definition ex_flags (l : list (flag * bool)) : valuation :=
+  fun f => match find (fun p => N.eqb (fst p) f) l with Some p => snd p | None => false end.
+Definition ex_st (ao : bool) := mk_state ao [5; 6; 7]%N.
+
+(* forget: refused with no effect under append-only; removes the snapshot otherwise *)
+Example ex_forget :
+  run (ex_st true) [mk_op EForget (ex_flags []) [[(false, 5%N)]]]
+    = [(ex_st true, mk_op EForget (ex_flags []) [[(false, 5%N)]], Refused, [])] /\
+  (let '(r, effs, st') := run_op (ex_st false) (mk_op EForget (ex_flags []) [[(false, 5%N)]]) in
+   r = Done /\ effs = [Remove None 5%N] /\ existsb (destroys [5; 6; 7]%N) effs = true /\ st_names st' = [6; 7]%N).
+Proof. split; vm_compute; repeat split; reflexivity. Qed.
+
+Definition ex_live : valuation := fun f => negb (N.eqb f F_dry_run).     (* every flag but dry_run *)
+Definition ex_dry : valuation := fun _ => true.
+Definition is_hashed_write (e : effect) : bool := match e with WriteHashed _ _ => true | _ => false end.
+
+(* backup under append-only completes and only adds content-addressed files; its dry run adds nothing *)
+Example ex_backup :
+  (let '(r, effs, _) := run_op (ex_st true) (mk_op EBackup ex_live [[(false, 11); (true, 12)]; [(false, 13)]]%N) in
+   r = Done /\ forallb is_hashed_write effs = true /\ In (WriteHashed (Some Pack) 11%N) effs) /\
+  (let '(r, effs, _) := run_op (ex_st true) (mk_op EBackup ex_dry [[(false, 11); (true, 12)]; [(false, 13)]]%N) in
+   r = Done /\ effs = []).
+Proof. split; vm_compute; repeat split; auto. Qed.
+
+(* apply_config: refused unless it switches append-only off - the one allowed way out; after it
+   the same forget goes through *)
+Example ex_config_way_out :
+  map (fun x => (st_ao (fst (fst (fst x))), snd (fst x),
+                 forallb (fun e => match e with WriteHashed (Some Config) _ | Remove None _ => true | _ => false end) (snd x)))
+      (run (ex_st true)
+         [mk_op EApplyConfig (ex_flags []) [[(false, 0%N)]];
+          mk_op EApplyConfig (ex_flags [(F_set_append_only_is_false, true)]) [[(false, 0%N)]];
+          mk_op EForget (ex_flags []) [[(false, 5%N)]]])
+  = [(true, Refused, true); (true, Done, true); (false, Done, true)] /\
+  snd (last (run (ex_st true)
+         [mk_op EApplyConfig (ex_flags [(F_set_append_only_is_false, true)]) [[(false, 0%N)]];
+          mk_op EForget (ex_flags []) [[(false, 5%N)]]]) (ex_st true, mk_op EForget (ex_flags []) [], Done, []))
+  = [Remove None 5%N].
+Proof. split; vm_compute; reflexivity. Qed.
+
+(* the premise of the hot/cold repair entries is needed: copying over an existing name destroys *)
+Example ex_hotcold_premise_needed :
+  let v := ex_flags [(18%N, true)] in
+  existsb (destroys [5; 6; 7]%N)
+    (snd (run_entry (mk_efacts None [] [mk_site KWriteBytes None [] false]) true v [[(false, 5%N)]])) = true /\
+  existsb (destroys [5; 6; 7]%N)
+    (snd (run_entry (mk_efacts None [] [mk_site KWriteBytes None [] false]) true v [[(false, 9%N)]])) = false.
+Proof. split; vm_compute; reflexivity. Qed.
+
+(* a table with the guard after the first storage call, or with an unguarded remove, is rejected *)
+Example ex_dominates_rejects :
+  dominates (mk_efacts (Some []) [mk_site KDeleteList None [] false] []) = false /\
+  dominates (mk_efacts None [] [mk_site KDeleteList None [] false]) = false /\
+  dominates (mk_efacts (Some [(14%N, true)]) [] [mk_site KDeleteList None [] false]) = false /\
+  dominates (mk_efacts (Some [(14%N, true)]) [] [mk_site KDeleteList None [(14%N, true)] false]) = true /\
+  dominates (mk_efacts None [] [mk_site KRemove (Some Key) [] false]) = true.
+Proof. repeat split; reflexivity. Qed.
